@@ -125,7 +125,7 @@ Definition row_insert (T : table) (w : row) : res row :=
   Ok (fill_row T (known_cols T w)).
 
 Definition mres_to_res (m : mres) : res value :=
-  match m with MOk v => Ok v | MErr => Err EOther | MDomain => Err EDomain end.
+  match m with MOk v => Ok v | MErr | MRange => Err EOther | MDomain => Err EDomain end.
 
 Definition row_mutate1 (T : table) (r : row) (mu : mutation) : res row :=
   let '(c, m, arg) := mu in
